@@ -332,14 +332,14 @@ TIERS = {
         "whileelse": (4, []),
     },
     "thorough": {
-        "module": (6, [(7, 1)]),
+        "module": (6, []),
         "func": (6, []),
         "class": (5, []),
         "method": (5, []),
         "loopfunc": (4, []),
         "loopclass": (4, []),
         "funcloop": (5, [(6, 1)]),
-        "whileelse": (5, [(6, 1)]),
+        "whileelse": (5, []),
     },
 }
 
